@@ -405,6 +405,8 @@ class SelectedMailbox:
                    self._session_flags, self._selected_set, self._lookup,
                    _mod_sequence=self._mod_sequence,
                    _prev=frozen, _messages=self._messages)
+        if self._selected_set is not None:
+            self._selected_set.add(copy, replace=self)
         if self._prev is not None:
             with_uid: bool = getattr(command, 'uid', False)
             untagged = self._compare(self._prev, frozen, with_uid)
